@@ -118,6 +118,16 @@ struct Kernel {
   }
   int create() {
     int fd = next_fd++;
+    while (socks.count(fd)) fd = next_fd++;
+    Sock &s = socks[fd];
+    s.open = true;
+    return fd;
+  }
+  // A simulated descriptor with a chosen number (0, 1, 2, ... are legitimate socket numbers: a process may have closed
+  // its standard descriptors).  All wrapped calls look the number up in `socks` first, so a real descriptor of the same
+  // number is simply shadowed for the library.
+  int create_at(int fd) {
+    if (fd < 0 || socks.count(fd)) return create();
     Sock &s = socks[fd];
     s.open = true;
     return fd;
@@ -237,7 +247,7 @@ int __wrap_poll(struct pollfd *fds, nfds_t n, int timeout) {
   Kernel &k = K();
   bool anysim = false;
   for (nfds_t i = 0; i < n; i++)
-    if (fds[i].fd >= SIM_BASE && fds[i].fd < SIM_BASE + SIM_MAX) anysim = true;
+    if ((fds[i].fd >= SIM_BASE && fds[i].fd < SIM_BASE + SIM_MAX) || k.socks.count(fds[i].fd)) anysim = true;
   if (n > 0 && !anysim) return __real_poll(fds, n, timeout);
   k.polls++;
   if (!k.poll_eintr.empty()) {
